@@ -139,6 +139,10 @@ pub trait Property: Sync {
     fn predicate(&self, _name: &str, _case: &Value, _v: &Violation) -> bool {
         false
     }
+    /// cases per pipeline batch
+    fn chunk(&self) -> usize {
+        2400
+    }
     /// per-case watchdog for the worker stage
     fn timeout(&self) -> Duration {
         Duration::from_secs(60)
@@ -402,7 +406,7 @@ pub fn run_check(prop: &dyn Property, tier: Tier) -> i32 {
     }
     // 2. generated search
     let cases = prop.generate(tier, seed);
-    let chunk = 2400;
+    let chunk = prop.chunk();
     let mut evaluations = 0usize;
     let mut distinct: BTreeSet<u64> = BTreeSet::new();
     let mut samples: Vec<Value> = vec![];
